@@ -690,6 +690,7 @@ class P(Prop):
     id = "C02"
     design_ref = "DESIGN.md section 5, C02 and appendix A.1"
     M = "TracklibVerif.Props.C02"
+    MA = "TracklibVerif.Props.C02Agg"
     theorems = [
         (M, "TV.C02.makeRPN_show", "T2: with makeRPN's real precedence table the right-to-left depth-0 scan returns the postfix form of every tree printed with the parentheses required by precedence and left associativity (and any redundant ones)"),
         (M, "TV.C02.evalRPN_postfix", "T1: the stack machine on the postfix form of a tree computes the tree semantics and leaves exactly the temporaries #k.. it created, appended to the table; nothing else changes"),
@@ -724,19 +725,32 @@ class P(Prop):
         (M, "TV.C02.aggregate_sentinel", "T8': on an empty or all-NaN feature Min returns +inf and Max -inf (their start values)"),
         (M, "TV.C02.operate_no_externals", "Track.operate(expr, {}) (the machine reading the dictionary of externals) is Track.operate(expr)"),
         (M, "TV.C02.getitem_is_operate", "front end: Track[expr] is Track.operate(expr) as soon as the stripped string contains one of + - / * ^ > < ( ) = ' { (the brace since fix 396f8f9)"),
-        (M, "TV.C02.operate_source_bare_minus", "a bare unary minus at the start, after '=', '(' or '{' is the parenthesised '(0-...)' form (one per application)"),
+        (M, "TV.C02.operate_source_bare_minus", "a bare unary minus at the start, after '=', '(' or '{' is the parenthesised '(0-...)' form (one per application; any number: T15)"),
         (M, "TV.C02.aggregate_argmin_argmax", "T9: Argmin / Argmax as coded (fix b728412) return the index of the FIRST observation holding the value Min / Max returns, as soon as the vector holds one number, +-inf included (ARGMIN{[nan, inf, inf]} = 1) - the documented min {t | x(t) = min(x)}"),
         (M, "TV.C02.aggregate_arg_none", "T9': on an empty or all-NaN vector (the only case T9 leaves out; no documented index) no index is taken and Argmin / Argmax return 0"),
         (M, "TV.C02.finite_differences", "T10: D, I, D2 as coded are the documented recurrences y(0)=NaN, y(t)=x(t)-x(t-1); y(0)=0, y(t)=y(t-1)+x(t); y(t)=x(t+1)-2x(t)+x(t-1) with NaN at both ends; one value per observation (no law of arithmetic used)"),
         (M, "TV.C02.operate_source_prime", "T11: from the source string, the ' shorthand: operate on 'lhs=e' / 'e' whose names may end with a quote does what it does on the postfix tokens of the tree with every a' replaced by D{a}/D{t} (__double_prime: two passes)"),
         (M, "TV.C02.operate_source_sign_pair", "T12: a sign directly after a binary + or - ('a+-b', 'a--b', 'a++b', 'a-+b'): typing two signs in place of the binary sign they multiply to does not change what operate does (one pair per application)"),
         (M, "TV.C02.operate_source_prime_value", "T11': operate(src e) with the ' shorthand returns the tree semantics of the unprimed tree at every observation and leaves the track exactly as it was"),
+        (M, "TV.C02.operate_source_sugar", "T15: ANY number of bare unary minuses (start, after '=', '(' or '{') and of doubled signs after a binary + or - in one string, in any order: operate does on the sugared string what it does on the printed source string it comes from (the replacements of __unaryOp act locally)"),
+        (M, "TV.C02.tokens_of_sugared_source", "T15': preprocess + makeRPN on a value-form string with any number of bare minuses / doubled signs = #output, postfix(desugared tree), ="),
+        (M, "TV.C02.operate_source_sugar_statement", "T15'': with a left-hand side, operate on the sugared string does what it does on the postfix tokens lhs, postfix(desugared tree), = (so T3b-T3d, T6' apply)"),
+        (MA, "TV.C02.aggregate_sum_avg", "T13: SUM / AVG as coded (NaN skipped) are the sum and sum/count of the non-NaN observations; AVG of no number is ZeroDivisionError (exact arithmetic: FieldModel over an ordered field)"),
+        (MA, "TV.C02.aggregate_var_mse", "T13': VAR / MSE as coded are sum((x-mean)^2)/count (population variance, mean = AVG) and sum(x^2)/count over the non-NaN observations; STD / RMSE are math.sqrt of them (exact arithmetic; math.sqrt a parameter)"),
+        (MA, "TV.C02.aggregate_median", "T14: MEDIAN as coded (np.argsort order, NaN last and counted in N; ranks N//2 resp. int(N/2-1), int(N/2)) is the value of rank N/2 among the numbers for odd N and the mean of the values of ranks N/2-1, N/2 for even N, whenever rank N/2 falls on a number; 'value of rank k' stated without sorting (at most k numbers below it, more than k below or equal)"),
+        (MA, "TV.C02.aggregate_median_nan", "T14 (NaN side): an odd vector half of whose observations or more are NaN has a NaN MEDIAN (np.argsort puts NaN last, Median does not skip them)"),
+        (MA, "TV.C02.median_rank_of_noNaN", "T14 hypothesis: on a non-empty vector without NaN every rank falls on a number"),
+        (MA, "TV.C02.order_statistic_unique", "the value of rank k of a list is unique (so T14 / T14' determine MEDIAN / MAD)"),
+        (MA, "TV.C02.aggregate_mad", "T14': MAD as coded (NaN skipped, absolute values, central rank N//2 since fix 56ef03e resp. the mean of ranks N/2-1, N/2) is the median of |x| over the non-NaN observations"),
+        (MA, "TV.C02.expression_aggregate_value", "T13/T14 inside an expression: the tree semantics of f{a} for an aggregate f is the constant vector of the value the aggregate returns on the column of a"),
+        (MA, "TV.C02.operate_aggregate_value", "... and Track.operate('f{a}') from the source string returns that value at every observation, the track unchanged (with T13: operate('SUM{a}') is the sum of the non-NaN values of a)"),
+        (MA, "TV.C02.median_index_arithmetic", "T14'': for even N >= 2 Python's (int)(N/2 - 1) and (int)(N/2) (true division, truncation) are the integer ranks N/2-1 and N/2 of the model"),
     ]
     partial = []
     open_statements = [
         "floating point: the two laws T5 still needs (x+s=s+x, x*s=s*x) are stated as hypotheses (shown for rationals with NaN; they hold of IEEE doubles, but Lean's Float is opaque); the reciprocal laws x*(1/s)=x/s, (1/x)*s=s/x are no longer needed since fix 5676890. T5 says that the evaluator performs the documented operations observation by observation; how far the computed doubles are from the real-number value of the expression (rounding) is decided by the transfer check against the independent Python oracle (IEEE evaluation of the documented definitions with a running error bound, relative tolerance 1e-9 at every magnitude)",
-        "the definitions of the functions (I D D2 ABS SQRT LOG DIODE SIGN EXP COS SIN TAN, SUM AVG VAR STD MSE RMSE MAD MIN MAX MEDIAN ARGMIN ARGMAX) are taken as coded in both denoteM and denote; their agreement with the documented formulas is checked by the Python oracle in the transfer check, not proved - except MIN / MAX (T8: the minimum / maximum of the non-NaN values at every magnitude), ARGMIN / ARGMAX (T9: the first index holding that extremum whenever the vector holds a number; T9': index 0 on an empty / all-NaN vector) and D, I, D2 (T10: the documented recurrences, index by index)",
-        "source strings (T7): several bare unary minuses or several doubled signs in one string (T12 and the bare-minus theorem are stated for one rewriting per application; they do not compose, the intermediate string not being a printed tree) and names ending with '.' are outside the proved grammar (covered by the correspondence streams expr/str; the ' shorthand is proved since T11, for names that do not start with a quote; a sign directly after a binary + or - since T12); error propagation (T6) excludes unbound names, unknown function names and a function applied to a bare number token, where the machine raises another error than the tree semantics (counter-examples in Lemmas/ExprErr.lean)",
+        "the definitions of the pointwise functions (ABS SQRT LOG DIODE SIGN EXP COS SIN TAN) are taken as coded in both denoteM and denote (they ARE their definitions up to math.sqrt / log / exp / cos / sin / tan, which are parameters of the scalar type); the aggregates and finite differences are proved equal to their documented formulas: MIN / MAX (T8), ARGMIN / ARGMAX (T9, T9'), D I D2 (T10), SUM AVG VAR STD MSE RMSE (T13, T13': sums over the non-NaN observations, population variance, math.sqrt a parameter) and MEDIAN / MAD (T14, T14': the value(s) of the central rank(s), 'value of rank k' stated without sorting) - T13/T14 over an ordered field (exact arithmetic; Option Rat is an instance), so for IEEE doubles they hold up to rounding, which the Python oracle's running error bound judges; MEDIAN with NaN among the observations: np.argsort puts NaN last and N counts them, T14 covers it as long as rank N/2 falls on a number - beyond that the coded result is a NaN for odd N (aggregate_median_nan) and 0.5 * (x + NaN) for even N (not stated: it needs NaN propagation of +), and the oracle does not judge a MEDIAN of a vector with NaN",
+        "source strings (T7): any number of bare unary minuses and doubled signs in one string is proved since T15 (closure Sugar of the two sugarings over a printed source string); still outside the proved grammar: three or more consecutive signs ('a---b'), a sign directly after * / ^ < > ('a*-b': Python raises), a doubled sign directly after '=' , '(' or '{' ('c=--a'), names ending with '.' ('2.*a' holds the pattern '.*'), the combination of T15 with the reflexive forms ('a+=-b') and with '**' (each is proved separately) - all covered by the correspondence streams expr/str; the ' shorthand is proved since T11, for names that do not start with a quote; error propagation (T6) excludes unbound names, unknown function names and a function applied to a bare number token, where the machine raises another error than the tree semantics (counter-examples in Lemmas/ExprErr.lean)",
     ]
     modelled = ("Track.__evaluate (replace chain, __specialOpChar, __convertReflexOperator, __unaryOp, f( -> f@( loops, #output prefix), "
                 "utils.makeRPN at character level, Track.__prime/__double_prime, Track.__evaluateRPN, Track.__applyOperation, the purge of "
